@@ -1,6 +1,6 @@
 SPECIFICATION Spec
 CONSTANTS
-  NRand = 900
+  NRand = 400
   MaxStmts = 4
   EDepth = 2
   SDepth = 2
